@@ -176,7 +176,9 @@ Proof.
 Qed.
 
 Lemma spec_f12_body r m : read_outside r = Some m -> is_hs r = false ->
-  has e_other m = false /  (subset m m_recverr || authfresh r || (f12_region r && subset m m_close)) = true /  implb (has e_close m) ((r_ty r =? t_close_tunnel) && authfresh r || f12_region r) = true.
+  has e_other m = false /\
+  (subset m m_recverr || authfresh r || (f12_region r && subset m m_close)) = true /\
+  implb (has e_close m) ((r_ty r =? t_close_tunnel) && authfresh r || f12_region r) = true.
 Proof.
   intros L H. pose proof (tab_all_read _ tab_spec_f12 r m L) as S. unfold spec_ok_f12 in S. rewrite H in S.
   cbn [orb] in S. apply andb_true_iff in S as [S S3]. apply andb_true_iff in S as [S1 S2].
